@@ -215,6 +215,8 @@ async def run_serial(ctx) -> None:
         if c != 1:
             ctx.violate("C11", "conservation", "lost" if c == 0 else "duplicated", f"frame of call {i} written {c} times: {f!r}")
             break
+    call_of = {e["frame"]: e["call"] - t_start for e in sim.calls.values() if e["exc"] is None}
+    write_t = {f: t for t, f in out}
     # order: writes appear in acceptance (call) order
     pos = {f: n for n, (t, f) in enumerate(out)}
     calls_sorted = sorted((e["seq"], e["frame"]) for e in sim.calls.values() if e["exc"] is None and e["frame"] in pos)
@@ -222,7 +224,12 @@ async def run_serial(ctx) -> None:
     for _, f in calls_sorted:
         if pos[f] < last:
             other = out[last][1]  # called before f, yet written after it
-            kind = "short_overtakes_long" if bits(f) < bits(other) else "reordered"
+            # the duty-cycle limiter makes every caller sleep on its own, without a queue: when it is throttling
+            # (a frame is held back noticeably longer than the inter-write gap explains) a later call can overtake
+            # the duty-cycle limiter makes every caller sleep on its own, without a queue, whenever the balance is
+            # short: then a later call can overtake.  If everything offered in this run fits into one bucket the
+            # limiter never sleeps, and a reordering cannot be its doing.
+            kind = "reordered_unthrottled" if total_bits <= BUCKET - 1300 else "limiter_no_fifo"
             ctx.violate("C11", "order", kind, f"write order differs from call order: {f[46:50]}.. ({bits(f)} bits, called later) "
                         f"was written before {other[46:50]}.. ({bits(other)} bits, called earlier)")
             break
